@@ -1,14 +1,1360 @@
-//! C03 — not built yet.
-use crate::engine::{Ctx, Property};
+//! C03 — results depend only on the arguments, not on earlier calls; pure operations are
+//! deterministic.
+//!
+//! Stateful / model-based: a generated *history* of queries is executed on one `Font`, then a
+//! probe query; the oracle is the same probe on a `Font` freshly loaded from the same bytes
+//! (metamorphic). One sampled history op is additionally compared with its own fresh font (so
+//! every prefix is a history too). Pure operations (subset, whole_font, prince::subset,
+//! instance, container decoding) are run twice in one process with unrelated work in between
+//! and must give byte-identical output.
+
+use crate::engine::util::{fnv1a, pick, truncate};
+use crate::engine::{fixtures, CaseResult, Ctx, Fail, Property, Rec};
+use crate::fontgen::basic::BasicFont;
+use crate::fontgen::fv_font::{self, FvFont, Regime};
+use allsorts::binary::read::ReadScope;
+use allsorts::binary::write::{WriteBinary, WriteBuffer};
+use allsorts::bitmap::{BitDepth, Bitmap, BitmapGlyph, EncapsulatedFormat};
+use allsorts::font::{Font, GlyphTableFlags, MatchingPresentation};
+use allsorts::font_data::{DynamicFontTableProvider, FontData};
+use allsorts::glyph_position::{GlyphLayout, TextDirection};
+use allsorts::gsub::{FeatureInfo, FeatureMask, Features};
+use allsorts::subset::prince::PrinceCmapTarget;
+use allsorts::tables::os2::Os2;
+use allsorts::tables::variable_fonts::avar::AvarTable;
+use allsorts::tables::variable_fonts::fvar::{FvarTable, OwnedTuple};
+use allsorts::tables::{Fixed, FontTableProvider};
+use allsorts::tag;
+use allsorts::unicode::VariationSelector;
+use proptest::prelude::*;
+use std::sync::OnceLock;
 
 pub struct C03;
+
+type F<'a> = Font<DynamicFontTableProvider<'a>>;
+
+const SIG_DOTTED_CIRCLE: &str = "C03:dotted-circle-cache-ignores-arguments";
+const SIG_TUPLE_KEY: &str = "C03:lookup-list-cache-ignores-variation-tuple";
+
+// ------------------------------------------------------------------ font pool
+
+pub struct FontEntry {
+    pub name: String,
+    pub bytes: Vec<u8>,
+    pub home_scripts: Vec<u32>,
+    /// scripts used when an op does not take a home script
+    pub other_scripts: Vec<u32>,
+    pub langs: Vec<Option<u32>>,
+    /// tuple pool; choice 0 means "no tuple", choice i+1 means tuples[i]
+    pub tuples: Vec<OwnedTuple>,
+    pub tuple_labels: Vec<String>,
+    pub num_glyphs: u16,
+    /// GSUB or GPOS has a FeatureVariations table
+    pub has_fv: bool,
+    pub fv: Option<FvFont>,
+    pub weight: u32,
+    pub kind: &'static str,
+}
+
+fn tag_str(t: u32) -> String {
+    let b = t.to_be_bytes();
+    b.iter().map(|c| if c.is_ascii_graphic() || *c == b' ' { *c as char } else { '?' }).collect()
+}
+
+fn load<'a>(bytes: &'a [u8], filter: u8) -> Result<F<'a>, String> {
+    let fd = ReadScope::new(bytes).read::<FontData<'_>>().map_err(|e| format!("FontData: {:?}", e))?;
+    let prov = fd.table_provider(0).map_err(|e| format!("table_provider: {:?}", e))?;
+    let mut font = Font::new(prov).map_err(|e| format!("Font::new: {:?}", e))?;
+    // configuration, not a query: applied identically to every font object of a case, right
+    // after construction
+    match filter {
+        0 => {}
+        1 => font.set_embedded_image_filter(GlyphTableFlags::SBIX),
+        2 => font.set_embedded_image_filter(GlyphTableFlags::SVG),
+        3 => font.set_embedded_image_filter(GlyphTableFlags::CBDT | GlyphTableFlags::EBDT),
+        _ => font.set_embedded_image_filter(GlyphTableFlags::empty()),
+    }
+    Ok(font)
+}
+
+/// user-space tuples over the font's axes, normalised the documented way (fvar + avar)
+fn tuple_pool(bytes: &[u8], user: Option<&[i32]>) -> (Vec<OwnedTuple>, Vec<String>) {
+    let mut out = Vec::new();
+    let mut labels = Vec::new();
+    let fd = match ReadScope::new(bytes).read::<FontData<'_>>() {
+        Ok(f) => f,
+        Err(_) => return (out, labels),
+    };
+    let prov = match fd.table_provider(0) {
+        Ok(p) => p,
+        Err(_) => return (out, labels),
+    };
+    let fvar_data = match prov.table_data(tag::FVAR) {
+        Ok(Some(d)) => d,
+        _ => return (out, labels),
+    };
+    let fvar = match ReadScope::new(&fvar_data).read::<FvarTable<'_>>() {
+        Ok(f) => f,
+        Err(_) => return (out, labels),
+    };
+    let avar_data = prov.table_data(tag::AVAR).ok().flatten();
+    let avar = avar_data.as_ref().and_then(|d| ReadScope::new(d).read::<AvarTable<'_>>().ok());
+    let axes: Vec<(i32, i32, i32)> =
+        fvar.axes().map(|a| (a.min_value.raw_value(), a.default_value.raw_value(), a.max_value.raw_value())).collect();
+    if axes.is_empty() {
+        return (out, labels);
+    }
+    let mut users: Vec<Vec<i32>> = Vec::new();
+    match user {
+        Some(vals) => {
+            for v in vals {
+                users.push(vec![*v]);
+            }
+        }
+        None => {
+            let mid = |a: i32, b: i32| ((a as i64 + b as i64) / 2) as i32;
+            users.push(axes.iter().map(|a| a.1).collect());
+            users.push(axes.iter().map(|a| a.0).collect());
+            users.push(axes.iter().map(|a| a.2).collect());
+            users.push(axes.iter().map(|a| mid(a.0, a.1)).collect());
+            users.push(axes.iter().map(|a| mid(a.1, a.2)).collect());
+            users.push(axes.iter().enumerate().map(|(i, a)| if i == 0 { a.2 } else { a.0 }).collect());
+        }
+    }
+    for u in users {
+        if let Ok(t) = fvar.normalize(u.iter().map(|v| Fixed::from_raw(*v)), avar.as_ref()) {
+            labels.push(format!("{:?}", t.iter().map(|x| x.raw_value()).collect::<Vec<i16>>()));
+            out.push(t);
+        }
+    }
+    (out, labels)
+}
+
+fn make_entry(name: &str, bytes: Vec<u8>, home: &[u32], weight: u32, kind: &'static str, fv: Option<FvFont>) -> Option<FontEntry> {
+    let (num_glyphs, has_fv, langs) = {
+        let mut font = load(&bytes, 0).ok()?;
+        let mut has_fv = false;
+        let mut lang_tags: Vec<u32> = Vec::new();
+        if let Ok(Some(c)) = font.gsub_cache() {
+            has_fv |= c.layout_table.opt_feature_variations.is_some();
+            if let Some(sl) = &c.layout_table.opt_script_list {
+                for s in sl.script_records() {
+                    for l in s.script_table().langsys_records() {
+                        if !lang_tags.contains(&l.langsys_tag) {
+                            lang_tags.push(l.langsys_tag);
+                        }
+                    }
+                }
+            }
+        }
+        if let Ok(Some(c)) = font.gpos_cache() {
+            has_fv |= c.layout_table.opt_feature_variations.is_some();
+        }
+        lang_tags.sort();
+        lang_tags.truncate(4);
+        let mut langs: Vec<Option<u32>> = vec![None, Some(tag::from_string("ENG ").unwrap_or(0))];
+        for l in lang_tags {
+            if !langs.contains(&Some(l)) {
+                langs.push(Some(l));
+            }
+        }
+        let trk = Some(tag::from_string("TRK ").unwrap_or(0));
+        if !langs.contains(&trk) {
+            langs.push(trk);
+        }
+        (font.num_glyphs(), has_fv, langs)
+    };
+    let user: Option<Vec<i32>> = fv.as_ref().map(|_| [400, 100, 900, 250, 650, 325, 525, 475].iter().map(|v: &i32| v << 16).collect());
+    let (tuples, tuple_labels) = tuple_pool(&bytes, user.as_deref());
+    Some(FontEntry {
+        name: name.to_string(),
+        bytes,
+        home_scripts: home.to_vec(),
+        // The syllable-based shapers (Indic, Khmer, Myanmar) panic on glyphs already substituted
+        // by `rvrn` (GlyphOrigin::Direct, src/scripts/mod.rs:57; property C02's business): keep
+        // them away from the generated font, whose `rvrn` lookups fire on plain letters.
+        other_scripts: if fv.is_some() {
+            vec![tag::LATN, tag::CYRL, tag::DFLT, tag::THAI, tag::GREK, tag::ARAB, tag::SYRC, tag::LAO]
+        } else {
+            SCRIPTS.to_vec()
+        },
+        langs,
+        tuples,
+        tuple_labels,
+        num_glyphs,
+        has_fv,
+        fv,
+        weight,
+        kind,
+    })
+}
+
+pub fn fonts() -> &'static Vec<FontEntry> {
+    static FONTS: OnceLock<Vec<FontEntry>> = OnceLock::new();
+    FONTS.get_or_init(|| {
+        let mut v = Vec::new();
+        for variant in 0..fv_font::VARIANTS {
+            let m = FvFont::new(variant);
+            let bytes = m.build();
+            if let Some(e) = make_entry(&format!("generated:fv-font-{}", variant), bytes, &[tag::LATN, tag::CYRL, tag::DFLT, tag::THAI], 6, "fv-generated", Some(m)) {
+                v.push(e);
+            }
+        }
+        // a complete font whose optional tables are all unreadable: every lazy slot of Font
+        // takes its error path (errors must be reported the same way on every call)
+        {
+            let mut f = BasicFont::with_glyphs(30);
+            for i in 0..26u32 {
+                f.cmap.insert('a' as u32 + i, (i + 1) as u16);
+            }
+            f.cmap.insert(0x25CC, 28);
+            f.extra.push((*b"GDEF", vec![0, 1, 0, 0, 0xFF, 0xFF, 0, 0, 0, 0, 0, 0]));
+            f.extra.push((*b"GPOS", vec![0, 1, 0, 0, 0]));
+            f.extra.push((*b"GSUB", vec![0, 1, 0, 0, 0, 10, 0xFF, 0xF0, 0, 0]));
+            f.extra.push((*b"kern", vec![0, 0, 0, 1, 0, 0]));
+            f.extra.push((*b"vhea", vec![0, 1, 0, 0, 1]));
+            f.extra.push((*b"vmtx", vec![0, 1]));
+            f.extra.push((*b"SVG ", vec![0, 0, 0, 0, 0xFF]));
+            if let Some(e) = make_entry("generated:broken-optional-tables", f.build(), &[tag::LATN], 3, "broken-tables", None) {
+                v.push(e);
+            }
+        }
+        let fx: &[(&str, &[u32], u32, &'static str)] = &[
+            ("fonts/opentype/Klei.otf", &[tag::LATN], 6, "latin"),
+            ("fonts/opentype/OpenSans-Regular.ttf", &[tag::LATN, tag::CYRL, tag::GREK], 6, "latin"),
+            ("fonts/noto/NotoNaskhArabic-Regular.ttf", &[tag::ARAB], 5, "arabic"),
+            ("fonts/arabic/amiri-regular.ttf", &[tag::ARAB, tag::LATN], 2, "arabic"),
+            ("fonts/noto/NotoSansDevanagari-Regular.ttf", &[tag::DEVA], 5, "devanagari"),
+            ("fonts/devanagari/lohit_hi.ttf", &[tag::DEVA], 2, "devanagari"),
+            ("fonts/khmer/Battambang-Regular.ttf", &[tag::KHMR], 4, "khmer"),
+            ("fonts/myanmar/Padauk-Regular.ttf", &[tag::MYMR], 4, "myanmar"),
+            ("fonts/noto/NotoSansThai-Regular.ttf", &[tag::THAI], 4, "thai"),
+            ("fonts/variable/Inter[slnt,wght].abc.ttf", &[tag::LATN], 4, "variable"),
+            ("fonts/variable/Zycon.ttf", &[tag::LATN], 3, "variable"),
+            ("fonts/variable/UnderlineTest-VF.ttf", &[tag::LATN], 2, "variable"),
+            ("fonts/opentype/NotoSans-VF.abc.ttf", &[tag::LATN], 3, "variable"),
+            ("fonts/opentype/cff2/SourceSansVariable-Roman.abc.otf", &[tag::LATN], 3, "variable"),
+            ("fonts/sbix/sbix-dupe.ttf", &[tag::LATN], 4, "images"),
+            ("fonts/svg/gzipped.ttf", &[tag::LATN], 4, "images"),
+            ("fonts/woff1/chromacheck-sbix.woff", &[tag::LATN], 3, "images"),
+            ("fonts/woff2/SFNT-TTF-Composite.woff2", &[tag::LATN], 3, "woff2"),
+            ("fonts/opentype/SymbolTest-Regular.ttf", &[tag::LATN], 3, "symbol"),
+            ("fonts/opentype/test-font.ttf", &[tag::LATN], 1, "latin"),
+            ("fonts/opentype/TerminusTTF-4.47.0.ttf", &[tag::LATN, tag::CYRL], 2, "images"),
+        ];
+        for (p, home, w, kind) in fx {
+            if let Some(b) = fixtures::read(p) {
+                if let Some(e) = make_entry(p, b, home, *w, kind, None) {
+                    v.push(e);
+                }
+            }
+        }
+        v
+    })
+}
+
+fn pick_weighted(r: u32, weights: &[u32]) -> usize {
+    let total: u64 = weights.iter().map(|w| *w as u64).sum();
+    if total == 0 {
+        return 0;
+    }
+    let mut x = (r as u64 * total) >> 32;
+    for (i, w) in weights.iter().enumerate() {
+        if x < *w as u64 {
+            return i;
+        }
+        x -= *w as u64;
+    }
+    weights.len() - 1
+}
+
+// ------------------------------------------------------------------ argument pools
+
+const SCRIPTS: &[u32] = &[
+    tag::LATN, tag::ARAB, tag::DEVA, tag::KHMR, tag::MYMR, tag::THAI, tag::CYRL, tag::DFLT, tag::DEV2, tag::SYRC, tag::LAO, tag::BENG,
+    tag::TAML, tag::GREK,
+];
+
+/// well-formed words / simple strings per script
+const TEXTS: &[(u32, &[&str])] = &[
+    (
+        tag::LATN,
+        &[
+            "abcdefgh", "Shaping in a jiffy.", "office affine", "AVATAR Wave To.", "1/2 and 3/4", "fi fl ffi", "badge cafe", "hgfedcba 0/1",
+            "a\u{0301}e\u{0308}", "abc", "\u{25CC}", "a\u{25CC}\u{FE0F}b", "\u{25CC}\u{FE0E}", "\u{25CC}\u{0301}x", "\u{263A}\u{FE0F}a", "",
+            "ab cd ef gh", "A",
+        ],
+    ),
+    (tag::CYRL, &["Привет", "мир", "abcd"]),
+    (tag::GREK, &["αβγ", "λόγος"]),
+    (tag::ARAB, &["السلام عليكم", "بِسْمِ ٱللَّهِ", "محمد", "لا إله", "كتاب", "\u{25CC}\u{064E}", "ﷲ"]),
+    (tag::SYRC, &["ܫܠܡܐ", "ܐܒܓ"]),
+    (tag::DEVA, &["हिन्दी", "क्षत्रिय", "कर्म", "श्री", "ि", "प्रार्थना", "\u{25CC}\u{093F}", "किताब"]),
+    (tag::BENG, &["বাংলা", "ক্ষ"]),
+    (tag::TAML, &["தமிழ்", "கொ"]),
+    (tag::KHMR, &["ភាសាខ្មែរ", "ស្រុក", "កម្ពុជា", "្ក", "កេ"]),
+    (tag::MYMR, &["မြန်မာ", "ကျွန်ုပ်", "ဘာသာ", "ြ", "ကို"]),
+    (tag::THAI, &["ภาษาไทย", "น้ำ", "กำ", "ที่", "abcdef"]),
+    (tag::LAO, &["ພາສາລາວ", "ນ້ຳ"]),
+];
+
+fn texts_for(script: u32) -> &'static [&'static str] {
+    let s = match script {
+        tag::DFLT => tag::LATN,
+        tag::DEV2 => tag::DEVA,
+        x => x,
+    };
+    TEXTS.iter().find(|t| t.0 == s).map(|t| t.1).unwrap_or(TEXTS[0].1)
+}
+
+#[derive(Clone, Debug, PartialEq)]
+pub enum FeatSel {
+    Mask(u64),
+    Custom(Vec<(u32, Option<usize>)>),
+}
+
+impl FeatSel {
+    fn to_features(&self) -> Features {
+        match self {
+            FeatSel::Mask(m) => Features::Mask(FeatureMask::from_bits_truncate(*m)),
+            FeatSel::Custom(l) => Features::Custom(l.iter().map(|(t, a)| FeatureInfo { feature_tag: *t, alternate: *a }).collect()),
+        }
+    }
+}
+
+fn feature_pool() -> Vec<FeatSel> {
+    let d = FeatureMask::default().bits();
+    vec![
+        FeatSel::Mask(d),
+        FeatSel::Mask(0),
+        FeatSel::Mask(d | FeatureMask::SMCP.bits()),
+        FeatSel::Mask(d | FeatureMask::FRAC.bits()),
+        FeatSel::Mask(FeatureMask::LIGA.bits()),
+        FeatSel::Mask(FeatureMask::CALT.bits()),
+        FeatSel::Mask(d | FeatureMask::ONUM.bits() | FeatureMask::C2SC.bits()),
+        FeatSel::Mask(FeatureMask::all().bits()),
+        FeatSel::Mask(d | FeatureMask::RVRN.bits()),
+        FeatSel::Custom(vec![(tag::LIGA, None)]),
+        FeatSel::Custom(vec![(tag::CALT, None), (tag::LIGA, None)]),
+        FeatSel::Custom(vec![(tag::RVRN, None), (tag::CALT, None), (tag::SMCP, None)]),
+        FeatSel::Custom(vec![]),
+        FeatSel::Custom(vec![(tag::SMCP, None), (tag::KERN, None)]),
+        FeatSel::Custom(vec![(u32::from_be_bytes(*b"salt"), Some(1)), (tag::LIGA, None)]),
+        FeatSel::Custom(vec![(tag::FINA, None), (tag::INIT, None)]),
+    ]
+}
+
+const CHARS: &[char] = &['\u{25CC}', 'a', 'A', ' ', 'ك', 'क', '\u{263A}', '\u{1F600}', '\u{F020}', 'é', '\u{F041}', '0'];
+const PPEMS: &[u16] = &[100, 0, 16, 20, 128, 300, 65535];
+const DEPTHS: &[BitDepth] = &[BitDepth::ThirtyTwo, BitDepth::One, BitDepth::Two, BitDepth::Four, BitDepth::Eight];
+
+// ------------------------------------------------------------------ ops
+
+#[derive(Clone, Debug, PartialEq)]
+pub struct ShapeArgs {
+    pub text: String,
+    pub script: u32,
+    pub required: bool,
+    pub lang: Option<u32>,
+    pub feat: FeatSel,
+    /// 0 = None, i+1 = entry.tuples[i]
+    pub tuple: usize,
+    pub kerning: bool,
+}
+
+#[derive(Clone, Debug, PartialEq)]
+pub enum Op {
+    MapGlyphs { text: String, script: u32, required: bool },
+    Shape(ShapeArgs),
+    Positions { args: ShapeArgs, rtl: bool, vertical: bool },
+    LookupGlyph { ch: char, required: bool, vs: u8 },
+    HAdvance(u16),
+    VAdvance(u16),
+    GlyphNames(Vec<u16>),
+    LookupImage { gid: u16, ppem: u16, depth: usize },
+    HasImages,
+    Os2,
+    Axes,
+    Tables,
+}
+
+/// kind numbers used by the generator
+const K_MAP: u8 = 0;
+const K_SHAPE: u8 = 1;
+const K_POS: u8 = 2;
+const K_LOOKUP: u8 = 3;
+const K_HADV: u8 = 4;
+const K_VADV: u8 = 5;
+const K_NAMES: u8 = 6;
+const K_IMAGE: u8 = 7;
+const K_HASIMG: u8 = 8;
+const K_OS2: u8 = 9;
+const K_AXES: u8 = 10;
+const K_TABLES: u8 = 11;
+const K_SAME: u8 = 255;
+
+#[derive(Clone, Debug)]
+pub struct OpSpec {
+    pub kind: u8,
+    pub r: [u32; 7],
+    pub flags: u8,
+    /// history ops of the probe's kind: bit i set = take r[i] from the probe (bit 7: flags), so
+    /// that arguments collide with the probe's on some components and differ on others
+    pub copy: u8,
+}
+
+#[derive(Clone, Debug)]
+pub struct Case {
+    pub font: u32,
+    pub filter: u8,
+    pub history: Vec<OpSpec>,
+    pub probe: OpSpec,
+    pub sample: u32,
+}
+
+fn pres(required: bool) -> MatchingPresentation {
+    if required {
+        MatchingPresentation::Required
+    } else {
+        MatchingPresentation::NotRequired
+    }
+}
+
+fn vs_of(v: u8) -> Option<VariationSelector> {
+    match v {
+        1 => Some(VariationSelector::VS16),
+        2 => Some(VariationSelector::VS15),
+        3 => Some(VariationSelector::VS01),
+        _ => None,
+    }
+}
+
+fn gid_pool(e: &FontEntry, r: u32) -> u16 {
+    let n = e.num_glyphs;
+    let fixed = [0u16, 1, 2, n.saturating_sub(1), n, 0xFFFF, n / 2, 3];
+    let i = pick(12, r);
+    if i < fixed.len() {
+        fixed[i]
+    } else {
+        // spread over the glyph range
+        ((r as u64 * 2654435761u64 >> 7) % (n.max(1) as u64)) as u16
+    }
+}
+
+fn resolve_shape(e: &FontEntry, s: &OpSpec) -> ShapeArgs {
+    // script: 65 % a home script of the font
+    let script = if s.flags & 0b11 != 0 { e.home_scripts[pick(e.home_scripts.len(), s.r[0])] } else { e.other_scripts[pick(e.other_scripts.len(), s.r[0])] };
+    // text: 75 % from the pool of that script, else from the pool of a home script
+    let pool = if s.flags & 0b1100 != 0 { texts_for(script) } else { texts_for(e.home_scripts[0]) };
+    let text = pool[pick(pool.len(), s.r[1])].to_string();
+    let feats = feature_pool();
+    ShapeArgs {
+        text,
+        script,
+        required: s.flags & 0b1_0000 != 0 && s.flags & 0b10_0000 != 0,
+        lang: e.langs[pick(e.langs.len(), s.r[2])],
+        feat: feats[pick(feats.len(), s.r[3])].clone(),
+        tuple: pick(e.tuples.len() + 1, s.r[4]),
+        kerning: s.flags & 0b100_0000 == 0,
+    }
+}
+
+fn resolve(e: &FontEntry, s: &OpSpec, probe: &OpSpec) -> Op {
+    let probe_kind = if probe.kind == K_SAME { K_SHAPE } else { probe.kind };
+    let kind = if s.kind == K_SAME { probe_kind } else { s.kind };
+    let mut merged = s.clone();
+    if s.kind == K_SAME {
+        for i in 0..7 {
+            if s.copy >> i & 1 == 1 {
+                merged.r[i] = probe.r[i];
+            }
+        }
+        if s.copy >> 7 & 1 == 1 {
+            merged.flags = probe.flags;
+        }
+    }
+    let s = &merged;
+    match kind {
+        K_MAP => {
+            let a = resolve_shape(e, s);
+            Op::MapGlyphs { text: a.text, script: a.script, required: s.flags & 0b1_0000 != 0 }
+        }
+        K_SHAPE => Op::Shape(resolve_shape(e, s)),
+        K_POS => Op::Positions { args: resolve_shape(e, s), rtl: s.r[5] & 1 == 1, vertical: s.r[5] & 6 == 6 },
+        K_LOOKUP => {
+            // biased to DOTTED CIRCLE
+            let ch = if s.flags & 1 == 1 { '\u{25CC}' } else { CHARS[pick(CHARS.len(), s.r[0])] };
+            Op::LookupGlyph { ch, required: s.flags & 2 == 2, vs: pick(4, s.r[1]) as u8 }
+        }
+        K_HADV => Op::HAdvance(gid_pool(e, s.r[0])),
+        K_VADV => Op::VAdvance(gid_pool(e, s.r[0])),
+        K_NAMES => {
+            let n = pick(6, s.r[0]);
+            Op::GlyphNames((0..n).map(|i| gid_pool(e, s.r[1 + i])).collect())
+        }
+        K_IMAGE => Op::LookupImage { gid: gid_pool(e, s.r[0]), ppem: PPEMS[pick(PPEMS.len(), s.r[1])], depth: pick(DEPTHS.len(), s.r[2]) },
+        K_HASIMG => Op::HasImages,
+        K_OS2 => Op::Os2,
+        K_AXES => Op::Axes,
+        _ => Op::Tables,
+    }
+}
+
+fn render_bitmap(r: Result<Option<BitmapGlyph>, allsorts::error::ParseError>) -> String {
+    match r {
+        Err(e) => format!("Err({:?})", e),
+        Ok(None) => "Ok(None)".to_string(),
+        Ok(Some(g)) => {
+            let bm = match &g.bitmap {
+                Bitmap::Embedded(b) => {
+                    format!("Embedded {}x{} {:?} len {} fnv {:016x}", b.width, b.height, b.format, b.data.len(), fnv1a(&b.data))
+                }
+                Bitmap::Encapsulated(b) => {
+                    let f = match b.format {
+                        EncapsulatedFormat::Jpeg => "jpeg".to_string(),
+                        EncapsulatedFormat::Png => "png".to_string(),
+                        EncapsulatedFormat::Tiff => "tiff".to_string(),
+                        EncapsulatedFormat::Svg => "svg".to_string(),
+                        EncapsulatedFormat::Other(t) => format!("other({:08x})", t),
+                    };
+                    format!("Encapsulated {} len {} fnv {:016x}", f, b.data.len(), fnv1a(&b.data))
+                }
+            };
+            format!("Ok(Some(ppem {:?}x{:?} metrics {:?} {}))", g.ppem_x, g.ppem_y, g.metrics, bm)
+        }
+    }
+}
+
+fn tuple_of<'a>(e: &'a FontEntry, choice: usize) -> Option<allsorts::tables::variable_fonts::fvar::Tuple<'a>> {
+    if choice == 0 {
+        None
+    } else {
+        e.tuples.get(choice - 1).map(|t| t.as_tuple())
+    }
+}
+
+fn do_shape(font: &mut F<'_>, e: &FontEntry, a: &ShapeArgs) -> (String, Vec<allsorts::gpos::Info>) {
+    let glyphs = font.map_glyphs(&a.text, a.script, pres(a.required));
+    let feats = a.feat.to_features();
+    match font.shape(glyphs, a.script, a.lang, &feats, tuple_of(e, a.tuple), a.kerning) {
+        Ok(infos) => (format!("Ok({:?})", infos), infos),
+        Err((err, infos)) => (format!("Err({:?}, {:?})", err, infos), infos),
+    }
+}
+
+/// Execute `op` on `font` and render the result canonically.
+fn run(font: &mut F<'_>, e: &FontEntry, op: &Op) -> String {
+    match op {
+        Op::MapGlyphs { text, script, required } => format!("{:?}", font.map_glyphs(text, *script, pres(*required))),
+        Op::Shape(a) => do_shape(font, e, a).0,
+        Op::Positions { args, rtl, vertical } => {
+            let (s, infos) = do_shape(font, e, args);
+            let dir = if *rtl { TextDirection::RightToLeft } else { TextDirection::LeftToRight };
+            let pos = GlyphLayout::new(font, &infos, dir, *vertical).glyph_positions();
+            format!("{:?} / shape {:016x}", pos, fnv1a(s.as_bytes()))
+        }
+        Op::LookupGlyph { ch, required, vs } => format!("{:?}", font.lookup_glyph_index(*ch, pres(*required), vs_of(*vs))),
+        Op::HAdvance(g) => format!("{:?}", font.horizontal_advance(*g)),
+        Op::VAdvance(g) => format!("{:?}", font.vertical_advance(*g)),
+        Op::GlyphNames(ids) => format!("{:?}", font.glyph_names(ids)),
+        Op::LookupImage { gid, ppem, depth } => render_bitmap(font.lookup_glyph_image(*gid, *ppem, DEPTHS[*depth])),
+        Op::HasImages => format!("images {} outlines {}", font.has_embedded_images(), font.has_glyph_outlines()),
+        Op::Os2 => match font.os2_table() {
+            Err(e) => format!("Err({:?})", e),
+            Ok(None) => "Ok(None)".to_string(),
+            Ok(Some(t)) => {
+                let mut w = WriteBuffer::new();
+                match Os2::write(&mut w, &t) {
+                    Ok(()) => format!("Ok(Some({}))", hex::encode(w.into_inner())),
+                    Err(e) => format!("Ok(Some(unwritable {:?} v{} first {} last {}))", e, t.version, t.us_first_char_index, t.us_last_char_index),
+                }
+            }
+        },
+        Op::Axes => format!("variable {} axes {:?} names {:?}", font.is_variable(), font.variation_axes(), font.axis_names()),
+        Op::Tables => {
+            let gdef = font.gdef_table().map(|o| o.is_some());
+            let gsub = font.gsub_cache().map(|o| o.is_some());
+            let gpos = font.gpos_cache().map(|o| o.is_some());
+            let kern = font.kern_table().map(|o| o.is_some());
+            let morx = font.morx_table().map(|o| o.is_some());
+            let vhea = font.vhea_table();
+            format!(
+                "n {} gdef {:?} gsub {:?} gpos {:?} kern {:?} morx {:?} vhea {:?} flags {:?} enc {:?} head {:?} hhea {:?} maxp {:?}",
+                font.num_glyphs(),
+                gdef,
+                gsub,
+                gpos,
+                kern,
+                morx,
+                vhea,
+                font.glyph_table_flags.bits(),
+                font.cmap_subtable_encoding,
+                font.head_table,
+                font.hhea_table,
+                font.maxp_table
+            )
+        }
+    }
+}
+
+/// Only the character-mapping part of an op (what can touch the DOTTED CIRCLE glyph cache).
+fn replay_mapping(font: &mut F<'_>, op: &Op) {
+    match op {
+        Op::MapGlyphs { text, script, required } => {
+            font.map_glyphs(text, *script, pres(*required));
+        }
+        Op::Shape(a) | Op::Positions { args: a, .. } => {
+            font.map_glyphs(&a.text, a.script, pres(a.required));
+            font.lookup_glyph_index('\u{25CC}', MatchingPresentation::NotRequired, None);
+        }
+        Op::LookupGlyph { ch, required, vs } => {
+            font.lookup_glyph_index(*ch, pres(*required), vs_of(*vs));
+        }
+        _ => {}
+    }
+}
+
+fn show_op(e: &FontEntry, op: &Op) -> String {
+    let sa = |a: &ShapeArgs| {
+        let feat = match &a.feat {
+            FeatSel::Mask(m) => format!("Mask({:?})", FeatureMask::from_bits_truncate(*m)),
+            FeatSel::Custom(l) => format!(
+                "Custom[{}]",
+                l.iter().map(|(t, alt)| if let Some(x) = alt { format!("{}={}", tag_str(*t), x) } else { tag_str(*t) }).collect::<Vec<_>>().join(",")
+            ),
+        };
+        format!(
+            "{:?} script {} pres {} lang {} features {} tuple {} kerning {}",
+            a.text,
+            tag_str(a.script),
+            if a.required { "Required" } else { "NotRequired" },
+            a.lang.map(tag_str).unwrap_or_else(|| "None".into()),
+            feat,
+            if a.tuple == 0 { "None".to_string() } else { e.tuple_labels.get(a.tuple - 1).cloned().unwrap_or_default() },
+            a.kerning
+        )
+    };
+    match op {
+        Op::MapGlyphs { text, script, required } => format!("map_glyphs({:?}, {}, {})", text, tag_str(*script), if *required { "Required" } else { "NotRequired" }),
+        Op::Shape(a) => format!("shape({})", sa(a)),
+        Op::Positions { args, rtl, vertical } => format!("positions({}; rtl {} vertical {})", sa(args), rtl, vertical),
+        Op::LookupGlyph { ch, required, vs } => {
+            format!("lookup_glyph_index(U+{:04X}, {}, {:?})", *ch as u32, if *required { "Required" } else { "NotRequired" }, vs_of(*vs))
+        }
+        Op::HAdvance(g) => format!("horizontal_advance({})", g),
+        Op::VAdvance(g) => format!("vertical_advance({})", g),
+        Op::GlyphNames(ids) => format!("glyph_names({:?})", ids),
+        Op::LookupImage { gid, ppem, depth } => format!("lookup_glyph_image({}, {}, {:?})", gid, ppem, DEPTHS[*depth]),
+        Op::HasImages => "has_embedded_images/has_glyph_outlines".into(),
+        Op::Os2 => "os2_table".into(),
+        Op::Axes => "variation_axes/axis_names".into(),
+        Op::Tables => "table accessors".into(),
+    }
+}
+
+fn shape_args(op: &Op) -> Option<&ShapeArgs> {
+    match op {
+        Op::Shape(a) => Some(a),
+        Op::Positions { args, .. } => Some(args),
+        _ => None,
+    }
+}
+
+fn family(op: &Op) -> u8 {
+    match op {
+        Op::MapGlyphs { .. } => 0,
+        Op::Shape(_) | Op::Positions { .. } => 1,
+        Op::LookupGlyph { .. } => 2,
+        Op::HAdvance(_) | Op::VAdvance(_) => 3,
+        Op::GlyphNames(_) => 4,
+        Op::LookupImage { .. } | Op::HasImages => 5,
+        Op::Os2 => 6,
+        Op::Axes => 7,
+        Op::Tables => 8,
+    }
+}
+
+fn kind_name(op: &Op) -> &'static str {
+    match op {
+        Op::MapGlyphs { .. } => "map_glyphs",
+        Op::Shape(_) => "shape",
+        Op::Positions { .. } => "positions",
+        Op::LookupGlyph { .. } => "lookup_glyph_index",
+        Op::HAdvance(_) => "horizontal_advance",
+        Op::VAdvance(_) => "vertical_advance",
+        Op::GlyphNames(_) => "glyph_names",
+        Op::LookupImage { .. } => "lookup_glyph_image",
+        Op::HasImages => "has_embedded_images",
+        Op::Os2 => "os2_table",
+        Op::Axes => "variation_axes",
+        Op::Tables => "table_accessors",
+    }
+}
+
+fn regime_of(e: &FontEntry, tuple: usize) -> Option<Regime> {
+    let fv = e.fv.as_ref()?;
+    let coord = if tuple == 0 { None } else { e.tuples.get(tuple - 1).and_then(|t| t.first().map(|x| x.raw_value())) };
+    Some(fv.regime(coord))
+}
+
+/// A used font answered `got`, a fresh one `exp`: decide the failure signature. Two known
+/// defects are attributed by a defect model (a fresh font on which only the state the defect
+/// is about has been reproduced answers exactly like the used font); anything else gets the
+/// generic signature of the probe's kind.
+fn triage(e: &FontEntry, filter: u8, prefix: &[Op], op: &Op, got: &str, exp: &str, what: &str) -> Fail {
+    let hist: Vec<String> = prefix.iter().map(|o| show_op(e, o)).collect();
+    let detail = format!(
+        "font {} (image filter {}): {} — after history [{}] the call {} returned\n  used : {}\n  fresh: {}",
+        e.name,
+        filter,
+        what,
+        hist.join("; "),
+        show_op(e, op),
+        truncate(got, 1500),
+        truncate(exp, 1500)
+    );
+    // defect model 1: only the glyph cache (DOTTED CIRCLE) state of the history is reproduced
+    let dc_possible = match op {
+        Op::LookupGlyph { ch, .. } => *ch == '\u{25CC}',
+        Op::MapGlyphs { .. } | Op::Shape(_) | Op::Positions { .. } => true,
+        _ => false,
+    };
+    if dc_possible {
+        if let Ok(mut model) = load(&e.bytes, filter) {
+            for h in prefix {
+                replay_mapping(&mut model, h);
+            }
+            if run(&mut model, e, op) == got {
+                return Fail::new(SIG_DOTTED_CIRCLE, format!("{}\n  (reproduced by a fresh font on which only the character lookups of the history were replayed: Font::lookup_glyph_index caches U+25CC without its presentation/selector arguments)", detail));
+            }
+        }
+    }
+    // defect model 2: one earlier shaping call with a different variation tuple but the same
+    // script and language (mask features) on a font with FeatureVariations explains the result
+    if let Some(a) = shape_args(op) {
+        if e.has_fv && matches!(a.feat, FeatSel::Mask(_)) {
+            for h in prefix {
+                if let Some(b) = shape_args(h) {
+                    // input class of the defect: the cached list is keyed by (script, language,
+                    // mask), so only a call with the same script and language but another tuple
+                    // can leave a stale list behind for this probe
+                    if b.tuple != a.tuple && b.script == a.script && b.lang == a.lang && matches!(b.feat, FeatSel::Mask(_)) {
+                        if let Ok(mut model) = load(&e.bytes, filter) {
+                            run(&mut model, e, h);
+                            if run(&mut model, e, op) == got {
+                                return Fail::new(
+                                    SIG_TUPLE_KEY,
+                                    format!("{}\n  (reproduced by a fresh font after the single call {}: the GSUB lookup-list cache key (script, language, feature mask) omits the feature-variations selection made by the tuple)", detail, show_op(e, h)),
+                                );
+                            }
+                        }
+                    }
+                }
+            }
+        }
+    }
+    Fail::new(format!("C03:{}-differs-from-fresh-font", kind_name(op)), detail)
+}
+
+/// The check proper, on resolved ops.
+fn check_history(e: &FontEntry, filter: u8, history: &[Op], probe: &Op, sampled: Option<usize>, rec: &mut Rec) -> CaseResult {
+    let harness = |m: String| Fail::new("C03:harness-font-load", format!("{}: {}", e.name, m));
+    // stored in the replay file if the case fails (also when it fails by a panic)
+    rec.artefact(
+        "ops",
+        format!("font {} filter {}\n{}\nprobe: {}", e.name, filter, history.iter().map(|o| show_op(e, o)).collect::<Vec<_>>().join("\n"), show_op(e, probe)).as_bytes(),
+    );
+    let mut used = load(&e.bytes, filter).map_err(harness)?;
+    let mut evals = 0u64;
+    for (i, op) in history.iter().enumerate() {
+        let got = run(&mut used, e, op);
+        if sampled == Some(i) {
+            let mut fresh = load(&e.bytes, filter).map_err(harness)?;
+            let exp = run(&mut fresh, e, op);
+            evals += 1;
+            if got != exp {
+                return Err(triage(e, filter, &history[..i], op, &got, &exp, "history op differs from the same op on a fresh font"));
+            }
+        }
+    }
+    let got = run(&mut used, e, probe);
+    let mut fresh = load(&e.bytes, filter).map_err(harness)?;
+    let exp = run(&mut fresh, e, probe);
+    if got != exp {
+        return Err(triage(e, filter, history, probe, &got, &exp, "probe differs from the same probe on a fresh font"));
+    }
+    // the probe itself is part of the history of a second, identical probe
+    let again = run(&mut used, e, probe);
+    evals += 1;
+    if again != got {
+        let mut h: Vec<Op> = history.to_vec();
+        h.push(probe.clone());
+        return Err(triage(e, filter, &h, probe, &again, &exp, "repeating the probe on the same font changed its result"));
+    }
+    rec.evaluations(evals);
+
+    // classification / non-triviality
+    let fam = family(probe);
+    let mut nontrivial = false;
+    match probe {
+        Op::Shape(a) | Op::Positions { args: a, .. } => {
+            let mut tuple_fv = false;
+            let mut d = [false; 6];
+            for h in history {
+                if let Some(b) = shape_args(h) {
+                    if b != a {
+                        nontrivial = true;
+                    }
+                    d[0] |= b.script != a.script;
+                    d[1] |= b.lang != a.lang;
+                    d[2] |= b.feat != a.feat;
+                    d[3] |= b.text != a.text;
+                    d[4] |= b.tuple != a.tuple;
+                    let same_key = b.script == a.script && b.lang == a.lang && b.feat == a.feat;
+                    if e.has_fv && b.tuple != a.tuple {
+                        let distinct_regime = match (regime_of(e, a.tuple), regime_of(e, b.tuple)) {
+                            (Some(x), Some(y)) => x != y,
+                            _ => true,
+                        };
+                        if distinct_regime {
+                            tuple_fv = true;
+                            d[5] |= same_key;
+                        }
+                    }
+                }
+            }
+            rec.class_if(d[0], "differs:script");
+            rec.class_if(d[1], "differs:language");
+            rec.class_if(d[2], "differs:features");
+            rec.class_if(d[3], "differs:text");
+            rec.class_if(d[4], "differs:tuple");
+            rec.class_if(d[5], "tuple-differs-with-feature-variations,same-script-language-features");
+            rec.class_if(tuple_fv, "tuple-differs-with-feature-variations");
+        }
+        Op::MapGlyphs { .. } => {
+            for h in history {
+                match h {
+                    Op::MapGlyphs { .. } if h != probe => nontrivial = true,
+                    Op::Shape(_) | Op::Positions { .. } => nontrivial = true,
+                    _ => {}
+                }
+            }
+        }
+        Op::LookupGlyph { ch, required, vs } => {
+            let mut same_char = false;
+            let mut after_shaping = false;
+            for h in history {
+                match h {
+                    Op::LookupGlyph { ch: c2, required: r2, vs: v2 } if h != probe => {
+                        nontrivial = true;
+                        same_char |= c2 == ch && (r2 != required || v2 != vs);
+                    }
+                    Op::Shape(_) | Op::Positions { .. } | Op::MapGlyphs { .. } => {
+                        nontrivial = true;
+                        after_shaping = true;
+                    }
+                    _ => {}
+                }
+            }
+            rec.class_if(same_char, "lookup:same-char-other-presentation/selector");
+            rec.class_if(*ch == '\u{25CC}', "lookup:dotted-circle");
+            rec.class_if(*ch == '\u{25CC}' && (same_char || (after_shaping && (*required || *vs != 0))), "lookup:dotted-circle-after-lookup-with-other-arguments");
+        }
+        _ => {
+            for h in history {
+                if family(h) == fam && h != probe {
+                    nontrivial = true;
+                }
+            }
+            // argument-less queries: any earlier call that fills a lazy slot counts
+            if matches!(probe, Op::Os2 | Op::Axes | Op::Tables | Op::HasImages) && !history.is_empty() {
+                nontrivial = true;
+            }
+        }
+    }
+    rec.set_nontrivial(nontrivial);
+    rec.class(&format!("probe:{}", kind_name(probe)));
+    rec.class(&format!("font:{}", e.kind));
+    rec.class_if(history.is_empty(), "history:empty");
+    rec.class_if(history.len() >= 6, "history:>=6");
+    rec.class_if(filter != 0, "image-filter-set");
+    rec.class_if(got.starts_with("Err"), "probe-result:error");
+    rec.sample(|| {
+        format!(
+            "{}: [{}] then {}",
+            e.name,
+            history.iter().map(|o| show_op(e, o)).collect::<Vec<_>>().join("; "),
+            show_op(e, probe)
+        )
+    });
+    Ok(())
+}
+
+pub fn check_case(case: &Case, rec: &mut Rec) -> CaseResult {
+    let pool = fonts();
+    if pool.is_empty() {
+        return Err(Fail::new("C03:harness-no-fonts", "no font could be loaded"));
+    }
+    let weights: Vec<u32> = pool.iter().map(|f| f.weight).collect();
+    let e = &pool[pick_weighted(case.font, &weights)];
+    let probe = resolve(e, &case.probe, &case.probe);
+    let history: Vec<Op> = case.history.iter().map(|s| resolve(e, s, &case.probe)).collect();
+    let sampled = if history.is_empty() { None } else { Some(pick(history.len(), case.sample)) };
+    check_history(e, case.filter, &history, &probe, sampled, rec)
+}
+
+fn kind_strategy() -> impl Strategy<Value = u8> {
+    prop_oneof![
+        35 => Just(K_SHAPE),
+        12 => Just(K_POS),
+        12 => Just(K_MAP),
+        16 => Just(K_LOOKUP),
+        4 => Just(K_HADV),
+        4 => Just(K_VADV),
+        4 => Just(K_NAMES),
+        5 => Just(K_IMAGE),
+        2 => Just(K_HASIMG),
+        2 => Just(K_OS2),
+        2 => Just(K_AXES),
+        2 => Just(K_TABLES),
+    ]
+}
+
+fn op_strategy(allow_same: bool) -> impl Strategy<Value = OpSpec> {
+    let kind = if allow_same { prop_oneof![55 => Just(K_SAME), 45 => kind_strategy()].boxed() } else { kind_strategy().boxed() };
+    // copy mask: arbitrary / exactly one component differs (the tuple three times as often as
+    // each other component) / nothing copied
+    let copy = prop_oneof![
+        3 => any::<u8>(),
+        3 => (0u8..10).prop_map(|i| !(1u8 << [4, 4, 4, 0, 1, 2, 3, 5, 6, 7][i as usize])),
+        1 => Just(0u8),
+    ];
+    (kind, proptest::array::uniform7(any::<u32>()), any::<u8>(), copy).prop_map(|(kind, r, flags, copy)| OpSpec { kind, r, flags, copy })
+}
+
+pub fn case_strategy() -> impl Strategy<Value = Case> {
+    (
+        any::<u32>(),
+        prop_oneof![6 => Just(0u8), 1 => 1u8..5],
+        proptest::collection::vec(op_strategy(true), 0..13),
+        op_strategy(false),
+        any::<u32>(),
+    )
+        .prop_map(|(font, filter, history, probe, sample)| Case { font, filter, history, probe, sample })
+}
+
+// ------------------------------------------------------------------ pinned histories
+
+fn pinned(i: u64, rec: &mut Rec) -> CaseResult {
+    let pool = fonts();
+    let fv = match pool.iter().find(|f| f.fv.is_some()) {
+        Some(f) => f,
+        None => return Err(Fail::new("C03:harness-no-fonts", "generated font missing")),
+    };
+    let shape = |text: &str, script: u32, tuple: usize, feat: FeatSel| {
+        Op::Shape(ShapeArgs { text: text.to_string(), script, required: false, lang: None, feat, tuple, kerning: true })
+    };
+    let d = FeatSel::Mask(FeatureMask::default().bits());
+    let dc = |required: bool, vs: u8| Op::LookupGlyph { ch: '\u{25CC}', required, vs };
+    // tuple choices of the generated font: 1 = default (0.0), 2 = min (-1.0), 3 = max (+1.0)
+    let (e, history, probe): (&FontEntry, Vec<Op>, Op) = match i {
+        0 => (fv, vec![dc(false, 0)], dc(true, 1)),
+        1 => (fv, vec![shape("abc", tag::LATN, 0, d.clone())], Op::MapGlyphs { text: "a\u{25CC}\u{FE0F}b".into(), script: tag::LATN, required: false }),
+        2 => (fv, vec![dc(true, 1)], shape("\u{25CC}abc", tag::LATN, 0, d.clone())),
+        3 => (fv, vec![shape("abcdefgh", tag::LATN, 2, d.clone())], shape("abcdefgh", tag::LATN, 0, d.clone())),
+        4 => (fv, vec![shape("abcdefgh", tag::LATN, 0, d.clone())], shape("abcdefgh", tag::LATN, 3, d.clone())),
+        5 => (fv, vec![shape("abcdefgh", tag::LATN, 3, d.clone()), shape("abcd", tag::CYRL, 2, d.clone())], Op::Positions {
+            args: ShapeArgs { text: "abcdefgh".into(), script: tag::LATN, required: false, lang: None, feat: d.clone(), tuple: 2, kerning: true },
+            rtl: false,
+            vertical: false,
+        }),
+        6 => (fv, vec![shape("abcdefgh", tag::THAI, 2, d.clone())], shape("abcdefgh", tag::THAI, 1, d.clone())),
+        _ => {
+            // a real font: DOTTED CIRCLE with a selector after shaping
+            let e = pool.iter().find(|f| f.name.ends_with("Klei.otf")).unwrap_or(fv);
+            (e, vec![shape("office", tag::LATN, 0, d.clone())], dc(true, 1))
+        }
+    };
+    check_history(e, 0, &history, &probe, Some(0), rec)?;
+    rec.nontrivial();
+    rec.hash_u64(i);
+    Ok(())
+}
+
+// ------------------------------------------------------------------ generated font vs its model
+
+/// The generated FeatureVariations font must really behave as its model says on a *fresh* font
+/// (otherwise the "tuple differs" class would be vacuous).
+fn fv_model_item(i: u64, rec: &mut Rec) -> CaseResult {
+    let pool = fonts();
+    let entries: Vec<&FontEntry> = pool.iter().filter(|f| f.fv.is_some()).collect();
+    if entries.is_empty() {
+        return Err(Fail::new("C03:harness-no-fonts", "generated font missing"));
+    }
+    let e = entries[(i % entries.len() as u64) as usize];
+    let fv = e.fv.as_ref().unwrap();
+    let j = i / entries.len() as u64;
+    let tuple = (j % (e.tuples.len() as u64 + 1)) as usize;
+    let k = j / (e.tuples.len() as u64 + 1);
+    let (script, script_tag, lang): (u32, &[u8; 4], Option<&[u8; 4]>) = match k % 4 {
+        0 => (tag::LATN, b"latn", None),
+        1 => (tag::LATN, b"latn", Some(b"TRK ")),
+        2 => (tag::CYRL, b"cyrl", None),
+        _ => (tag::GREK, b"grek", None), // not in the font: DFLT
+    };
+    let smcp = (k / 4) % 2 == 1;
+    let kerning = (k / 8) % 2 == 0;
+    let mut mask = FeatureMask::default();
+    let mut feats: Vec<[u8; 4]> = vec![*b"ccmp", *b"rlig", *b"clig", *b"liga", *b"locl", *b"calt"];
+    if smcp {
+        mask |= FeatureMask::SMCP;
+        feats.push(*b"smcp");
+    }
+    let regime = regime_of(e, tuple).unwrap_or(Regime::Default);
+    let input: Vec<u16> = (1..=fv_font::LETTERS).collect();
+    let exp_g = fv.expect_gsub(&input, script_tag, lang, &feats, regime, tuple != 0);
+    let (exp_kern, exp_place) = fv.expect_gpos(script_tag, lang, regime, kerning);
+    let mut font = load(&e.bytes, 0).map_err(|m| Fail::new("C03:harness-font-load", m))?;
+    let glyphs = font.map_glyphs("abcdefgh", script, MatchingPresentation::NotRequired);
+    let lang_tag = lang.map(|l| u32::from_be_bytes(*l));
+    let infos = match font.shape(glyphs, script, lang_tag, &Features::Mask(mask), tuple_of(e, tuple), kerning) {
+        Ok(i) => i,
+        Err((err, _)) => return Err(Fail::new("C03:generated-font-shape-error", format!("{}: shape failed: {:?}", e.name, err))),
+    };
+    let got_g: Vec<u16> = infos.iter().map(|x| x.glyph.glyph_index).collect();
+    let ctx = format!(
+        "{} script {} lang {:?} tuple {} ({:?}) smcp {} kerning {}",
+        e.name,
+        tag_str(script),
+        lang.map(|l| String::from_utf8_lossy(l).to_string()),
+        if tuple == 0 { "None".to_string() } else { e.tuple_labels[tuple - 1].clone() },
+        regime,
+        smcp,
+        kerning
+    );
+    if got_g != exp_g {
+        return Err(Fail::new("C03:generated-font-gsub-model", format!("{}: glyphs {:?}, model says {:?}", ctx, got_g, exp_g)));
+    }
+    for x in &infos {
+        let place = match x.placement {
+            allsorts::gpos::Placement::None => 0,
+            allsorts::gpos::Placement::Distance(dx, 0) => dx,
+            other => return Err(Fail::new("C03:generated-font-gpos-model", format!("{}: unexpected placement {:?}", ctx, other))),
+        };
+        if x.kerning != exp_kern || place != exp_place as i32 {
+            return Err(Fail::new(
+                "C03:generated-font-gpos-model",
+                format!("{}: glyph {} kerning {} placement {}, model says {} / {}", ctx, x.glyph.glyph_index, x.kerning, place, exp_kern, exp_place),
+            ));
+        }
+    }
+    rec.set_nontrivial(regime != Regime::Default);
+    rec.class(&format!("fv-model:{:?}", regime));
+    rec.hash_u64(i);
+    Ok(())
+}
+
+// ------------------------------------------------------------------ pure operations, run twice
+
+#[derive(Clone, Debug)]
+pub struct PureCase {
+    pub font: u32,
+    pub op: u8,
+    pub r: [u32; 8],
+    pub between: u8,
+}
+
+struct PureFont {
+    name: String,
+    bytes: Vec<u8>,
+    num_glyphs: u16,
+    /// user-space coordinates per axis (min, default, max), raw 16.16
+    axes: Vec<(i32, i32, i32)>,
+}
+
+fn pure_fonts() -> &'static Vec<PureFont> {
+    static P: OnceLock<Vec<PureFont>> = OnceLock::new();
+    P.get_or_init(|| {
+        let mut v: Vec<(String, Vec<u8>)> = Vec::new();
+        for p in [
+            "fonts/opentype/test-font.ttf",
+            "fonts/opentype/Klei.otf",
+            "fonts/opentype/OpenSans-Regular.ttf",
+            "fonts/opentype/SFNT-TTF-Composite.ttf",
+            "fonts/opentype/cff2/SourceSans3.abc.otf",
+            "fonts/opentype/cff2/SourceSansVariable-Roman.abc.otf",
+            "fonts/variable/Inter[slnt,wght].abc.ttf",
+            "fonts/opentype/NotoSans-VF.abc.ttf",
+            "fonts/variable/UnderlineTest-VF.ttf",
+            "fonts/variable/Zycon.ttf",
+            "fonts/woff2/SFNT-TTF-Composite.woff2",
+            "fonts/woff1/valid-005.woff",
+            "fonts/woff1/chromacheck-sbix.woff",
+            "fonts/sbix/sbix-dupe.ttf",
+            "fonts/khmer/Battambang-Regular.ttf",
+        ] {
+            if let Some(b) = fixtures::read(p) {
+                v.push((p.to_string(), b));
+            }
+        }
+        v.push(("generated:fv-font-0".into(), FvFont::new(0).build()));
+        let mut basic = BasicFont::with_glyphs(40);
+        for i in 0..26u32 {
+            basic.cmap.insert('a' as u32 + i, (i + 1) as u16);
+        }
+        basic.cmap.insert(0x1F600, 30);
+        v.push(("generated:basic-font".into(), basic.build()));
+        let mut out = Vec::new();
+        for (name, bytes) in v {
+            let info = (|| {
+                let fd = ReadScope::new(&bytes).read::<FontData<'_>>().ok()?;
+                let prov = fd.table_provider(0).ok()?;
+                let maxp = prov.table_data(tag::MAXP).ok()??;
+                let n = ReadScope::new(&maxp).read::<allsorts::tables::MaxpTable>().ok()?.num_glyphs;
+                let mut axes = Vec::new();
+                if let Ok(Some(d)) = prov.table_data(tag::FVAR) {
+                    if let Ok(fvar) = ReadScope::new(&d).read::<FvarTable<'_>>() {
+                        axes = fvar.axes().map(|a| (a.min_value.raw_value(), a.default_value.raw_value(), a.max_value.raw_value())).collect();
+                    }
+                }
+                Some((n, axes))
+            })();
+            if let Some((num_glyphs, axes)) = info {
+                out.push(PureFont { name, bytes, num_glyphs, axes });
+            }
+        }
+        out
+    })
+}
+
+#[derive(Clone, Debug, PartialEq)]
+enum PureOp {
+    Subset(Vec<u16>),
+    WholeFont { drop: usize },
+    Prince { ids: Vec<u16>, target: u8, convert: bool },
+    Instance(Vec<i32>),
+    Tables,
+}
+
+fn pure_ids(f: &PureFont, r: &[u32], with_zero: bool) -> Vec<u16> {
+    let n = pick(7, r[0]);
+    let mut ids: Vec<u16> = Vec::new();
+    for i in 0..n {
+        let g = (((r[1 + i % 6] as u64) * f.num_glyphs.max(1) as u64) >> 32) as u16;
+        ids.push(g);
+    }
+    if with_zero {
+        ids.push(0);
+        ids.sort();
+        ids.dedup();
+    }
+    ids
+}
+
+fn resolve_pure(f: &PureFont, op: u8, r: &[u32; 8]) -> PureOp {
+    match op % 5 {
+        0 => PureOp::Subset(pure_ids(f, r, r[7] % 16 != 0)),
+        1 => PureOp::WholeFont { drop: pick(4, r[0]) },
+        2 => PureOp::Prince { ids: pure_ids(f, r, r[7] % 16 != 0), target: (r[7] >> 8) as u8 % 3, convert: r[7] >> 16 & 1 == 1 },
+        3 => {
+            let coords = f
+                .axes
+                .iter()
+                .enumerate()
+                .map(|(i, a)| match (r[i % 6] >> 3) % 6 {
+                    0 => a.1,
+                    1 => a.0,
+                    2 => a.2,
+                    3 => ((a.0 as i64 + a.1 as i64) / 2) as i32,
+                    4 => ((a.1 as i64 + a.2 as i64) / 2) as i32,
+                    _ => (a.0 as i64 + ((r[(i + 1) % 6] as i64 * (a.2 as i64 - a.0 as i64)) >> 32)) as i32,
+                })
+                .collect();
+            PureOp::Instance(coords)
+        }
+        _ => PureOp::Tables,
+    }
+}
+
+/// Execute a pure operation on a freshly created provider over `bytes`. Output: Ok(bytes) or
+/// Err(debug string); `tags` (if any) are returned sorted because their order is not promised.
+fn run_pure(bytes: &[u8], op: &PureOp) -> Result<Vec<u8>, String> {
+    let fd = ReadScope::new(bytes).read::<FontData<'_>>().map_err(|e| format!("FontData {:?}", e))?;
+    let prov = fd.table_provider(0).map_err(|e| format!("provider {:?}", e))?;
+    run_pure_on(&prov, op)
+}
+
+fn run_pure_on(prov: &DynamicFontTableProvider<'_>, op: &PureOp) -> Result<Vec<u8>, String> {
+    match op {
+        PureOp::Subset(ids) => allsorts::subset::subset(prov, ids).map_err(|e| format!("{:?}", e)),
+        PureOp::WholeFont { drop } => {
+            let mut tags = prov.table_tags().ok_or_else(|| "no tags".to_string())?;
+            tags.sort();
+            for _ in 0..*drop {
+                // drop optional tables from the end of the sorted list (never the required ones)
+                if let Some(pos) = tags.iter().rposition(|t| ![tag::HEAD, tag::MAXP, tag::HHEA, tag::HMTX, tag::LOCA, tag::GLYF, tag::CFF].contains(t)) {
+                    tags.remove(pos);
+                }
+            }
+            allsorts::subset::whole_font(prov, &tags).map_err(|e| format!("{:?}", e))
+        }
+        PureOp::Prince { ids, target, convert } => {
+            let t = match target {
+                0 => PrinceCmapTarget::Unrestricted,
+                1 => PrinceCmapTarget::MacRoman,
+                _ => PrinceCmapTarget::Omit,
+            };
+            allsorts::subset::prince::subset(prov, ids, t, *convert).map_err(|e| format!("{:?}", e))
+        }
+        PureOp::Instance(coords) => {
+            let user: Vec<Fixed> = coords.iter().map(|c| Fixed::from_raw(*c)).collect();
+            allsorts::variations::instance(prov, &user)
+                .map(|(mut b, t)| {
+                    for x in t.iter() {
+                        b.extend_from_slice(&x.raw_value().to_be_bytes());
+                    }
+                    b
+                })
+                .map_err(|e| format!("{:?}", e))
+        }
+        PureOp::Tables => {
+            let mut tags = prov.table_tags().ok_or_else(|| "no tags".to_string())?;
+            tags.sort();
+            let mut out = Vec::new();
+            for t in tags {
+                out.extend_from_slice(&t.to_be_bytes());
+                match prov.table_data(t) {
+                    Ok(Some(d)) => {
+                        out.extend_from_slice(&(d.len() as u32).to_be_bytes());
+                        out.extend_from_slice(&d);
+                    }
+                    Ok(None) => out.extend_from_slice(b"none"),
+                    Err(e) => out.extend_from_slice(format!("{:?}", e).as_bytes()),
+                }
+            }
+            Ok(out)
+        }
+    }
+}
+
+fn pure_name(op: &PureOp) -> &'static str {
+    match op {
+        PureOp::Subset(_) => "subset",
+        PureOp::WholeFont { .. } => "whole_font",
+        PureOp::Prince { .. } => "prince-subset",
+        PureOp::Instance(_) => "instance",
+        PureOp::Tables => "decode-tables",
+    }
+}
+
+fn check_pure(c: &PureCase, rec: &mut Rec) -> CaseResult {
+    let pool = pure_fonts();
+    if pool.is_empty() {
+        return Err(Fail::new("C03:harness-no-fonts", "no font for the pure-operation section"));
+    }
+    let variable: Vec<&PureFont> = pool.iter().filter(|f| !f.axes.is_empty()).collect();
+    // instancing is only meaningful on variable fonts (1 in 8 instancing cases keeps a static font: error path)
+    let f: &PureFont = if c.op % 5 == 3 && !variable.is_empty() && c.font % 8 != 0 { variable[pick(variable.len(), c.font)] } else { &pool[pick(pool.len(), c.font)] };
+    let op = resolve_pure(f, c.op, &c.r);
+    let first = run_pure(&f.bytes, &op);
+    // unrelated work in between: other allocations, other pure calls, shaping on a Font
+    let mut keep: Vec<Vec<u8>> = Vec::new();
+    match c.between % 4 {
+        0 => {}
+        1 => {
+            let mut r2 = c.r;
+            r2.rotate_left(3);
+            let other = resolve_pure(f, c.op.wrapping_add(1 + (c.between >> 2) % 4), &r2);
+            if let Ok(b) = run_pure(&f.bytes, &other) {
+                keep.push(b);
+            }
+        }
+        2 => {
+            if let Ok(mut font) = load(&f.bytes, 0) {
+                let g = font.map_glyphs("office 1/2 abc", tag::LATN, MatchingPresentation::NotRequired);
+                let _ = font.shape(g, tag::LATN, None, &Features::Mask(FeatureMask::default()), None, true);
+            }
+        }
+        _ => {
+            for i in 0..(8 + (c.between >> 2) as usize) {
+                keep.push(vec![i as u8; 100 + 37 * i]);
+            }
+            let mut m = std::collections::HashMap::new();
+            for i in 0..64u32 {
+                m.insert(i ^ c.r[0], vec![0u8; (i % 7) as usize * 16]);
+            }
+            keep.push(vec![m.len() as u8]);
+        }
+    }
+    let second = run_pure(&f.bytes, &op);
+    // and twice on one provider object
+    let (third, fourth) = {
+        let fd = ReadScope::new(&f.bytes).read::<FontData<'_>>();
+        match fd.map_err(|e| format!("FontData {:?}", e)).and_then(|fd| fd.table_provider(0).map_err(|e| format!("provider {:?}", e))) {
+            Ok(prov) => (run_pure_on(&prov, &op), run_pure_on(&prov, &op)),
+            Err(e) => (Err(e.clone()), Err(e)),
+        }
+    };
+    drop(keep);
+    let name = pure_name(&op);
+    for (label, other) in [("second run", &second), ("first run on a shared provider", &third), ("second run on a shared provider", &fourth)] {
+        if &first != other {
+            let describe = |r: &Result<Vec<u8>, String>| match r {
+                Ok(b) => format!("Ok({} bytes, fnv {:016x})", b.len(), fnv1a(b)),
+                Err(e) => format!("Err({})", truncate(e, 300)),
+            };
+            let at = match (&first, other) {
+                (Ok(a), Ok(b)) => a.iter().zip(b.iter()).position(|(x, y)| x != y).map(|p| format!(", first difference at byte {}", p)).unwrap_or_default(),
+                _ => String::new(),
+            };
+            rec.artefact("font", &f.bytes);
+            return Err(Fail::new(
+                format!("C03:{}-not-deterministic", name),
+                format!("{} {:?}: first run {} but {} {}{}", f.name, op, describe(&first), label, describe(other), at),
+            ));
+        }
+    }
+    rec.evaluations(3);
+    rec.set_nontrivial(matches!(&first, Ok(b) if !b.is_empty()));
+    rec.class(&format!("pure:{}", name));
+    rec.class_if(first.is_err(), &format!("pure:{}:error", name));
+    rec.sample(|| format!("{} {:?} -> {}", f.name, op, match &first { Ok(b) => format!("{} bytes", b.len()), Err(e) => truncate(e, 80) }));
+    Ok(())
+}
 
 impl Property for C03 {
     fn id(&self) -> &'static str {
         "C03"
     }
     fn rule(&self) -> String {
-        "not implemented".to_string()
+        "Section `histories`: proptest generates a font (fixtures: Latin CFF/TrueType with kern, Arabic, Devanagari, Khmer, Myanmar, Thai, five variable fonts, sbix/SVG/EBDT/WOFF/WOFF2, symbol cmap, a generated font whose optional tables are all unreadable; plus six variants of a generated variable font whose GSUB and GPOS carry FeatureVariations), an image-filter configuration, a history of 0-12 queries and one probe query; \
+         all arguments (text, script, language, feature mask / custom feature list, variation tuple, kerning, presentation, selector, glyph ids, ppem, bit depth) come from small pools so that cache keys collide on some components and differ on others; 55 % of the history ops are of the probe's kind. \
+         The canonical rendering (Debug of glyphs/infos/positions/errors, bytes of images and OS/2) of the probe on the used font must equal the probe on a Font freshly loaded from the same bytes; one sampled history op is compared with its own fresh font, and the probe is repeated on the used font. \
+         Non-trivial = the history contains at least one op of the probe's kind family (shape/positions; map_glyphs or shaping; lookup or mapping or shaping; advances; names; images) whose arguments differ from the probe's (argument-less queries: any earlier call). Classes record which argument differs; `tuple-differs-with-feature-variations` = shaping probe on a font with FeatureVariations after shaping with a tuple that selects another feature-variation record. \
+         Section `pure-twice`: subset / whole_font / prince::subset / instance / container decoding (sfnt, WOFF, WOFF2) are run twice from fresh providers with unrelated work in between and twice on one provider; outputs must be byte-identical (table tags compared as sorted sets); non-trivial = the operation succeeded with non-empty output. \
+         `fv-model` checks the generated font against its model on fresh fonts in every regime; `pinned` replays fixed histories for the two cache-key defects found with this check (repaired since). Distinct by hash of the generated case."
+            .to_string()
     }
-    fn run(&self, _ctx: &mut Ctx) {}
+    fn assumptions(&self) -> Vec<String> {
+        vec![
+            "Debug renderings of RawGlyph/Info/GlyphPosition/ParseError cover every observable field of the results".into(),
+            "set_embedded_image_filter is configuration: applied identically to used and fresh fonts right after construction, never mid-history".into(),
+            "variation tuples are obtained the documented way (FvarTable::normalize with the font's avar)".into(),
+            "two runs in one process use differently seeded HashMaps (std RandomState), so iteration-order dependence shows up as a byte difference".into(),
+        ]
+    }
+    fn run(&self, ctx: &mut Ctx) {
+        let n = ctx.cases(100_000, 10_000_000);
+        ctx.section("histories", n, case_strategy(), |c, rec| check_case(c, rec));
+        let n = ctx.cases(6_000, 400_000);
+        ctx.section(
+            "pure-twice",
+            n,
+            (any::<u32>(), any::<u8>(), proptest::array::uniform8(any::<u32>()), any::<u8>()).prop_map(|(font, op, r, between)| PureCase { font, op, r, between }),
+            |c, rec| check_pure(c, rec),
+        );
+        // variants x 9 tuple choices x 16 (script/lang, smcp, kerning) combinations
+        ctx.enumerate("fv-model", fv_font::VARIANTS as u64 * 9 * 16, true, fv_model_item);
+        ctx.enumerate("pinned", 8, true, pinned);
+    }
 }
